@@ -69,6 +69,27 @@ structure Paths where
 
 def parent (p : Path) : Path := p.dropLast
 
+/-- `Path::parent()` of an ABSOLUTE path given by its components: `None` for the root `/` (no
+component), otherwise the path without its last component (the parent of `/a` is the root, `[]`).
+`save_dict` and `save_stats` do `if let Some(parent) = path.parent() { create_dir_all(parent) }`,
+so for the root path there is NO `mkdir` at all. -/
+def parent? : Path → Option Path
+  | [] => none
+  | p => some (parent p)
+
+/-- `if let Some(parent) = q.parent() { create_dir_all(parent) }` -/
+def mkParent (q : Path) : List Eff :=
+  match parent? q with
+  | none => []
+  | some d => [.mkdirs d]
+
+/-- `save_dict(q, …)` (dictionary_io.rs): make the directory that contains `q`, then `File::create(q)` -/
+def saveDictEff (q : Path) : List Eff := mkParent q ++ [.createFile q]
+
+/-- `save_stats` (backend.rs): make the directory that contains the statistics file, then open it
+for appending (`create(true)`) -/
+def saveStatsEff (q : Path) : List Eff := mkParent q ++ [.appendFile q]
+
 /-- the per-document dictionary file -/
 def fileDictPath (P : Paths) (doc : List Char) : Path := joinName P.fileDir (fileDictName doc)
 
@@ -129,15 +150,14 @@ def trace (P : Paths) : Entry → List Eff
   | .deleted => []
   | .configuration docs => docs.flatMap fun d => rereadEff P d.1 d.2.1 d.2.2
   | .addUser doc e twice =>
-    [.readFile P.userDict, .mkdirs (parent P.userDict), .createFile P.userDict] ++ rereadEff P doc e twice
+    [.readFile P.userDict] ++ saveDictEff P.userDict ++ rereadEff P doc e twice
   | .addFile doc e twice =>
-    [.readFile (fileDictPath P doc), .mkdirs (parent (fileDictPath P doc)), .createFile (fileDictPath P doc)]
-      ++ rereadEff P doc e twice
+    [.readFile (fileDictPath P doc)] ++ saveDictEff (fileDictPath P doc) ++ rereadEff P doc e twice
   | .ignoreLint => []
   | .recordLint => []
   | .codeAction => []
   | .openUrl url => [.spawnOpener url]
-  | .shutdown => [.mkdirs (parent P.stats), .appendFile P.stats]
+  | .shutdown => saveStatsEff P.stats
 
 def traceAll (P : Paths) (h : List Entry) : List Eff := h.flatMap (trace P)
 
@@ -153,5 +173,38 @@ def Eff.isNetwork : Eff → Bool
 def Eff.written : Eff → Option Path
   | .createFile p | .appendFile p | .mkdirs p => some p
   | _ => none
+
+/-! ## what an effect can CREATE
+
+`create_dir_all(p)` is not one `mkdir`: it makes `p` AND every ancestor of `p` that does not exist
+yet (`mkdir p` → `ENOENT` → `create_dir_all(p.parent())` → `mkdir p`). The root always exists, so
+what it can create is every NON-ROOT prefix of `p`; which of them it does create depends on the
+file system (`dirsCreated` below). -/
+
+/-- the non-empty prefixes of a component list, shortest first: `/a`, `/a/b`, …, `p` itself -/
+def nonRootPrefixes : Path → List Path
+  | [] => []
+  | c :: cs => [c] :: (nonRootPrefixes cs).map (c :: ·)
+
+/-- every path an effect MAY bring into existence: `mkdirs p` ↦ every non-root prefix of `p`
+(the ancestors `create_dir_all` makes when they are missing, and `p`); `createFile` / `appendFile`
+(`create(true)`) ↦ the file -/
+def Eff.created : Eff → List Path
+  | .mkdirs p => nonRootPrefixes p
+  | .createFile p | .appendFile p => [p]
+  | _ => []
+
+/-- lexical `..` resolution (what the kernel does when no symlink is involved) -/
+def normDots : Path → Path → Path
+  | acc, [] => acc.reverse
+  | acc, c :: cs => if c = ['.', '.'] then normDots (acc.drop 1) cs else normDots (c :: acc) cs
+
+/-- The directories the `mkdirs` effects of `es` DO create on a file system whose existing
+directories are `existing` and their ancestors (no symbolic links, nothing removed meanwhile): the
+`..`-resolved prefixes that are not there yet (the root — what `/w/..` resolves to — always is). This is what the harness observes (new
+directories after the real `save_dict`; successful `mkdir` calls of a traced server). -/
+def dirsCreated (existing : List Path) (es : List Eff) : List Path :=
+  ((es.filter fun e => match e with | .mkdirs _ => true | _ => false).flatMap Eff.created).map (normDots [])
+    |>.filter fun q => !q.isEmpty && !(existing.any fun x => q.isPrefixOf x)
 
 end Harper.Effects
